@@ -284,7 +284,7 @@ class FSimGateFamily(cirq.GateFamily):
         Args:
            gate: `cirq.Gate` instance which should be checked for containment.
         """
-        if not isinstance(gate, self.gate_types_to_check):
+        if not isinstance(gate, self.gate_types_to_check) or cirq.qid_shape(gate) != (2, 2):
             return False
         cg: POSSIBLE_FSIM_GATES | None
         for g in self.gates_to_accept:
@@ -357,7 +357,7 @@ class FSimGateFamily(cirq.GateFamily):
                 return None
             theta = -g.exponent * np.pi / 2 if isinstance(g, cirq.ISwapPowGate) else 0
             phi = -g.exponent * np.pi if isinstance(g, cirq.CZPowGate) else 0
-        if isinstance(g, cirq.IdentityGate):
+        if isinstance(g, cirq.IdentityGate) and cirq.qid_shape(g) == (2, 2):
             theta = phi = 0
         return None if (theta is None or phi is None) else cirq.FSimGate(theta, phi)
 
